@@ -501,9 +501,18 @@ U_C14_End(zz) ==
      DeclP([C0 |-> Class(DefaultOpts, <<U1("n"), RepCountF("r", DataF("e", SzConst(0)), SzField("n"), NoCond, 0)>>)], {0, 1, 3}, 3, {0, 1}),
      DeclP([C0 |-> Class(DefaultOpts, <<U1("n"), RepCountF("r", RefF("e", "C1"), SzField("n"), NoCond, 0)>>),
             C1 |-> Class(DefaultOpts, <<EmF("nothing")>>)], {0, 2, 3}, 3, {0, 1})}
-U_C14(zz) == {d \in U_C01(0) \cup U_C06(0) \cup U_C14_End(0) \cup U_Long(0) : NoBegins(d) /\ NoRawCallable(d)}
+\* integers wider than 4 bytes (values that fit a TLC integer: leading 00 / ff), with 0..3 bytes after them up to the end
+WideVal(w, e, lo, fill) == IF e = "little" THEN <<lo>> \o RepB(fill, w - 1) ELSE RepB(fill, w - 1) \o <<lo>>
+U_Wide(zz) ==
+    {WithInputs(DeclP([C0 |-> Class(DefaultOpts, <<IntF("a", w, sg, e), U1("z")>>)], {0, 1}, 0, {0, 1}),
+                {WideVal(w, e, lo, fill) \o tail : lo \in {1, 254}, fill \in (IF sg THEN {0, 255} ELSE {0}),
+                                                  tail \in {<<>>, <<7>>, <<7, 8>>, <<7, 8, 9>>}}) :
+        w \in {5, 6, 7}, sg \in BOOLEAN, e \in {"default", "little"}}
+    \cup {WithInputs(DeclP([C0 |-> Class(DefaultOpts, <<U1("n"), RepCountF("r", IntF("e", w, TRUE, "default"), SzField("n"), NoCond, 0)>>)], {0, 1}, 0, {0}),
+                     {<<2>> \o WideVal(w, "big", 3, 0) \o WideVal(w, "big", 253, 255) \o tail : tail \in {<<>>, <<7>>, <<7, 8>>}}) : w \in {5, 6}}
+U_C14(zz) == {d \in U_C01(0) \cup U_C06(0) \cup U_C14_End(0) \cup U_Long(0) \cup U_Wide(0) : NoBegins(d) /\ NoRawCallable(d)}
 IsScan(d) == d.prog["C0"].fields[2].k = "Data" /\ d.prog["C0"].fields[2].size.m \in {"marker", "regex"}
-U_C14_Q(zz) == {d \in {e \in U_C01_Data(0) : e.prog["C0"].opts.endian = "none"} \cup U_C01_Before(0) \cup U_C10_Back(0) \cup U_C08_Nest(0) \cup U_C14_End(0) \cup U_Long(0)
+U_C14_Q(zz) == {d \in {e \in U_C01_Data(0) : e.prog["C0"].opts.endian = "none"} \cup U_C01_Before(0) \cup U_C10_Back(0) \cup U_C08_Nest(0) \cup U_C14_End(0) \cup U_Long(0) \cup U_Wide(0)
                    \cup {e \in U_C10_Flat(0) : e.prog["C0"].fields[2].mv.kind = "shift"}
                    \cup {e \in U_C08_Until(0) : e.prog["C0"].fields[2].aligned = 0 /\ e.prog["C0"].fields[2].when = NoCond}
                    \cup {e \in U_C06(0) : Len(e.prog["C0"].fields) = 2 /\ e.prog["C0"].fields[1].k = "Data"}
@@ -533,6 +542,7 @@ PickU(n) ==
       [] n = "U_C01_Root" -> U_C01_Root(0)
       [] n = "U_C01_Reent" -> U_C01_Reent(0)
       [] n = "U_C08_Sign" -> U_C08_Sign(0)
+      [] n = "U_Wide" -> U_Wide(0)
       [] n = "U_C08" -> U_C08(0)
       [] n = "U_C10_Flat" -> U_C10_Flat(0)
       [] n = "U_C10_Nest" -> U_C10_Nest(0)
